@@ -57,7 +57,7 @@ CLAIMED.update({
  "C15": dict(technique="TLA+ spec MC_Schedule (query schedules) enumerated/simulated by TLC + lock-step trace comparison by TLC (Trace_Pair) of relabelled / queried runs",
              text="Runs with time labels t0+i (t0 = 0, 17) are compared with the t0 = 1 run for all 12 listed algorithms; all schedules of 0..2 recommendation queries after each of 4 rounds (and simulated long schedules) are executed on T_HOO/HCT/VHCT/Zooming/POO and compared, queries dropped, with the query-free run.",
              note="StoSOO / StroquOOL read the time argument by design and are excluded, as in the property.", ref="5/C15"),
- "C16": dict(technique="metamorphic pairs (box, affine image) compared in lock step by TLC (Trace_Pair) on rank-coded traces, which are invariant under increasing affine maps",
+ "C16": dict(technique="TLA+ spec MC_Affine (partition step commutes with affine maps) model-checked with TLC + metamorphic pairs (box, affine image) of real runs compared in lock step by TLC (Trace_Pair) on rank-coded traces",
              text="Each algorithm x partition is run on a box and on its image under power-of-two scalings, dyadic translations (exact mode: identical encoded traces) and generic affine maps (positions within 3e-9 of the box, identical cells/expansions); Zooming only under exact maps, DOO's default delta only under translations.",
              note="Sampled configurations; exact equality demanded only where the map commutes with the float arithmetic of the partition.", ref="5/C16"),
 })
